@@ -177,7 +177,7 @@ def render_v3000(M, rng, perm=None, opts=None):
         for i, p in enumerate(parts):
             tb = "  " if (o["tailblank"] and i == len(parts) - 1 and rng.random() < 0.5) else ""
             phys.append("M  V30 " + p + tb)
-    head = ["", "  SPEC      0101000000", "", "  0  0  0     0  0            999 V3000"]
+    head = ["", "  SPEC      0101000000", "", "  0  0  0     0  0            999 V3000" + rng.choice(["", "", "", " ", "   "])]
     if o["header"]:
         head[0] = rng.choice(["water", "a name - with a dash-", "M  END", "   ", "compound 17, exported as V3000", "converted from V2000", "it's 5'-end \\"])
         head[2] = rng.choice(["comment CHG=5 MASS=3", "M  V30 not a block line", "", "checked against V2000", "  0  0  0     0  0            999 V3000"])
@@ -217,7 +217,7 @@ def render_v2000(M, rng, perm=None, opts=None):
              rng.choice(["", "checked V2000", "M  CHG  1   1   1", "comment"])]
     alist = ["  1 F    2   6   7", "  1 T    1   8"] if o["lists"] else []
     # counts line aaabbblllfffcccsssxxxrrrpppiiimmmvvvvvv: chiral flag 0 / 1, obsolete fields anything, no Stext entries
-    lines.append(f"{n:3d}{len(M['bonds']):3d}{len(alist):3d}  0{rng.choice([0, 0, 1]):3d}  0{rng.choice([0, 0, 2]):3d}{rng.choice([0, 0, 1]):3d}{rng.choice([0, 0, 3]):3d}{rng.choice([0, 0, 1]):3d}{rng.choice(['999', '999', '999', '  0', '  1', '  2', '   ', ' 12']) if o['mmm'] else '999'} V2000")
+    lines.append(f"{n:3d}{len(M['bonds']):3d}{len(alist):3d}  0{rng.choice([0, 0, 1]):3d}  0{rng.choice([0, 0, 2]):3d}{rng.choice([0, 0, 1]):3d}{rng.choice([0, 0, 3]):3d}{rng.choice([0, 0, 1]):3d}{rng.choice(['999', '999', '999', '  0', '  1', '  2', '   ', ' 12']) if o['mmm'] else '999'} V2000" + rng.choice(["", "", "", " ", "    "]))
     for k in order:
         a = M["atoms"][k]
         sym = a["sym"]
